@@ -538,9 +538,14 @@ class CancelScope(BaseCancelScope):
                 if self._pending_uncancellations:
                     assert self._parent_scope is not None
                     assert self._parent_scope._pending_uncancellations is not None
-                    self._parent_scope._pending_uncancellations += (
-                        self._pending_uncancellations
-                    )
+                    # Only a scope of the same task can make up for the cancel() calls
+                    # made on this task; the host task of a parent scope in another task
+                    # (a task group's) was never the target of them
+                    if self._parent_scope._host_task is self._host_task:
+                        self._parent_scope._pending_uncancellations += (
+                            self._pending_uncancellations
+                        )
+
                     self._pending_uncancellations = 0
 
                 return False
